@@ -128,7 +128,7 @@ def main():
         "setup_cmd": "/verif/run.sh setup",
         "hooks": {
             "guard": "verif",
-            "enable": "go build -tags verif (module /verif/engine, replace github.com/sahandsafizadeh/qeep => /repo)",
+            "enable": "go build -tags \"verif vsync\" -overlay <generated> (module /verif/engine, replace github.com/sahandsafizadeh/qeep => /repo). The tag verif enables the hook commits; the overlay (engine/tools/mkoverlay, nothing committed to /repo) maps the sync / sync/atomic shim into the module and rewrites sync imports and go statements of the library's files so that the controlled scheduler sees them; fallback: -tags verif without overlay",
             "baseline_off_cmd": "/verif/run.sh baseline-off",
             "source_commits": HOOK_COMMITS,
             "add_only": True,
@@ -139,7 +139,7 @@ def main():
             {"name": "E3", "path": "/verif/engine", "serves_properties": [p for p in ALL if p in CHECKS and CHECKS[p]["engine"] == "E3"], "kind_free_text": E3},
         ],
         "checks": checks,
-        "notes": "One binary (engine/bin/qmc) rebuilt from /repo's working tree by every command. Exit 0 = held on everything explored, 1 = VIOLATION line(s), 2 = broken check. Known findings: /verif/KNOWN_FINDINGS.txt.",
+        "notes": "One binary (engine/bin/qmc) rebuilt from /repo's working tree by every command (C20 additionally a -race build); sizes used by the sweeps include the integer constants of that tree's source. Exit 0 = held on everything explored, 1 = VIOLATION line(s), 2 = broken check. Known findings: /verif/KNOWN_FINDINGS.txt.",
         "not_applicable": na,
     }
     json.dump(m, open("/verif/MANIFEST.json", "w"), indent=1)
